@@ -189,7 +189,7 @@ func genOutsideCase(rng *fw.Rng) (*SnapCase, string) {
 	}
 	// sometimes an astronomically far vertex: beyond what the 1e-10 integer representation can hold
 	if nOut > 0 && rng.Chance(1, 40) {
-		v := fw.Pick(rng, []float64{9.3e8, 1e9, 1e10, 1.8446744073709552e9, 1e15, 1e30, 1e300, math.MaxFloat64, math.Inf(1)})
+		v := fw.Pick(rng, []float64{9.3e8, 1e9, 1e10, 1.8446744073709552e9, 1e15, 1e30, 1e300, math.MaxFloat64}) // (no infinities: a case must be expressible in JSON)
 		if rng.Bool() {
 			v = -v
 		}
